@@ -145,6 +145,10 @@ pub struct Oracles {
     /// from then on, the status-byte rules (which need no model) stay on
     #[serde(default)]
     pub fault_resilient: bool,
+    /// percentage of `unmount()` calls that meet one transient storage error (the call fails, the destructor that
+    /// follows completes the work); everything demanded of an unmounted volume stays in force
+    #[serde(default)]
+    pub unmount_faults: u8,
 }
 
 #[derive(Clone, Debug, Serialize, Deserialize)]
